@@ -162,3 +162,31 @@ package writer
 //@   loop 1 invariant forall j int :: {msgBytesArr[j]} 0 <= j && j <= rangeindex ==> msgBytesArr[j] == marshalBytes(old(len(marshalled)) + j)
 //@   loop 1 invariant c.replicateID != "" ==> (forall j int :: {marshalled[old(len(marshalled)) + j]} 0 <= j && j <= rangeindex && msgKnown(marshalled[old(len(marshalled)) + j]) ==> stamped(marshalled[old(len(marshalled)) + j], c.replicateID))
 //@   loop 1 invariant preservedArrays("*msgpb.MsgPosition") && preservedFields(msgpb.MsgPosition.MsgID)
+
+// ---- C07 / C06: the Milvus handler forwards the replicate call unchanged and reports every failure ----------------
+// sdkCalls / sdkOK / sdk*: calls of the go-sdk client's ReplicateMessage, whether the last one succeeded, its arguments
+//@ ghost var sdkCalls int
+//@ ghost var sdkOK bool
+//@ ghost var sdkChannel string
+//@ ghost var sdkBeginTs uint64
+//@ ghost var sdkEndTs uint64
+//@ ghost var sdkBytes [][]byte
+//@ ghost var sdkResp *entity.MessageInfo
+//@ trusted func (github.com/milvus-io/milvus-sdk-go/v2/client.Client).ReplicateMessage
+//@   params recv ctx channelName beginTs endTs msgsBytes startPositions endPositions opts
+//@   ensures sdkCalls == old(sdkCalls) + 1 && sdkOK == (result1 == nil) && sdkChannel == channelName && sdkBeginTs == beginTs && sdkEndTs == endTs && sdkBytes == msgsBytes && sdkResp == result0
+//@   ensures result1 == nil ==> result0 != nil
+//@   modifies sdkCalls, sdkOK, sdkChannel, sdkBeginTs, sdkEndTs, sdkBytes, sdkResp, fresh(entity.MessageInfo.*)
+//@ func (*MilvusDataHandler).milvusOp
+//@   props C07 C06
+//@   requires m != nil
+//@   inline
+//@ func (*MilvusDataHandler).ReplicateMessage
+//@   props C07 C06
+//@   requires m != nil && param != nil
+//@   private sdkCalls sdkOK sdkChannel sdkBeginTs sdkEndTs sdkBytes sdkResp api.ReplicateMessageParam.ChannelName api.ReplicateMessageParam.BeginTs api.ReplicateMessageParam.EndTs api.ReplicateMessageParam.MsgsBytes entity.MessageInfo.Position
+//@   ensures [success-is-reported-only-after-a-successful-downstream-call] result == nil ==> sdkCalls > old(sdkCalls) && sdkOK
+//@   ensures [the-downstream-call-carries-the-parameters-channel-times-and-bytes] sdkCalls > old(sdkCalls) ==> sdkChannel == param.ChannelName && sdkBeginTs == param.BeginTs && sdkEndTs == param.EndTs && sdkBytes == param.MsgsBytes
+//@   ensures [the-downstream-position-is-handed-back] result == nil ==> param.TargetMsgPosition == sdkResp.Position
+// every attempt (retry.Do inside milvusOp) passes the same parameters
+//@   rangeloop 1 invariant sdkCalls >= old(sdkCalls) && (sdkCalls > old(sdkCalls) ==> sdkChannel == param.ChannelName && sdkBeginTs == param.BeginTs && sdkEndTs == param.EndTs && sdkBytes == param.MsgsBytes) && param.ChannelName == old(param.ChannelName) && param.BeginTs == old(param.BeginTs) && param.EndTs == old(param.EndTs) && param.MsgsBytes == old(param.MsgsBytes)
